@@ -188,7 +188,12 @@ def compile_units(ck, units):
     import shutil
     import subprocess
     from concurrent.futures import ThreadPoolExecutor
-    cache = ck.path("objcache")
+    if os.environ.get("VERIF_C56_OBJCACHE") != "1":
+        # default: every unit is compiled from the tree under test on every run (the reuse below is an opt-in
+        # accelerator for repeated runs on a busy machine)
+        return ck.cxx_many([("c56_%d.o" % i, [u], ("-c",)) for i, u in enumerate(units)],
+                           includes=(vlib.REPO + "/src/Material",), sanitize=True, opt="-O1")
+    cache = os.path.join(vlib.VERIF, "work", "C56.objcache")      # work/C56 itself is emptied at the start of every run
     os.makedirs(cache, exist_ok=True)
     base = ["g++", "-std=c++20", "-O1", "-g0", "-ffp-contract=off", "-fno-fast-math",
             "-I" + os.path.join(vlib.VERIF, "harness"), "-I" + os.path.join(vlib.VERIF, "harness", "symtrace"),
